@@ -19,4 +19,9 @@ MIN_OBLIGATIONS = 15
 
 def build(src, tier):
     w = A.world_for(src, tier)
-    return [(w, [A.t_stop('other'), A.t_stop('self'), A.t_run_event_iteration()])]
+    # stop() ends a timed source by clearing its run event: that the source then posts nothing more (it re-reads the
+    # event after every sleep) is the timer thread's half of this property
+    from . import timer_targets as TT
+    wt = TT.world_for(src, tier)
+    return [(w, [A.t_stop('other'), A.t_stop('self'), A.t_run_event_iteration()]),
+            (wt, [TT.t_timed_post('fifo', may_cancel=True), TT.t_timed_post('lifo', may_cancel=True)])]
